@@ -9,7 +9,7 @@ from ..lib import coqrun, driver, env, proofs, report
 PROP = "C10"
 FLAT_BITS = (4,)        # flat_case_code: refinement of the two flat_cluster outputs
 LEX_BITS = (5,)         # lex_case_code: refinement of the two id columns
-LEX_COUNTS = {"quick": 200, "thorough": 8000}
+LEX_COUNTS = {"quick": 200, "thorough": 3000}
 
 
 def main(tier, seed):
